@@ -12,7 +12,9 @@ Scenario (JSON-able dict):
             the controller closes it (a send buffer still draining) - the "loss of an abandoned connection" case
   subs:     bool - the pairing has a subscription (so connection_made(True) does a round trip)
   controls: list of [tick, kind, arg] sorted by tick; kinds:
-            ensure w | cancel w | zeroconf [host indices] | soon | drop cid | dropreset cid | close | shutdown
+            ensure w | cancel w | zeroconf [host indices] | soon | drop cid | dropreset cid | close | shutdown |
+            shutdown_then [k, kind2, arg2]  (kind2 in ensure|zeroconf delivered k loop iterations after shutdown()
+            was started, in the same tick: the model sees "shutdown; kind2" at one tick)
   end:      tick at which the run stops (a final snapshot is taken)
   style:    "v4" (default) or "v6": hosts are advertised as non-canonical IPv6 literals and the
             connected peer reports the canonical, scoped spelling (address normalisation)
@@ -187,6 +189,27 @@ def run_scenario(sc):
                             tr.peer_fin() if kind == "drop" else tr.peer_reset()
                 elif kind in ("close", "shutdown"):
                     bg.append(asyncio.ensure_future(closer(kind)))
+                elif kind == "shutdown_then":
+                    # shutdown() is started and, k event-loop iterations later (inside the SAME tick, while
+                    # shutdown is still suspended in close()), a second pairing-level event arrives
+                    k, kind2, arg2 = arg
+                    trace.pop()                                   # logged below as two controls
+                    log("control", "shutdown", 0)
+                    t_sh = asyncio.ensure_future(closer("shutdown"))
+                    bg.append(t_sh)
+                    for _ in range(k):
+                        await asyncio.sleep(0)
+                    log("control", kind2, arg2)
+                    if kind2 == "ensure":
+                        waiters[arg2] = asyncio.ensure_future(waiter(arg2))
+                        bg.append(waiters[arg2])
+                    elif kind2 == "zeroconf":
+                        p._async_description_update(ipsim.FakeDescription([host(i) for i in arg2], config_num=-1, state_num=1))
+                    else:
+                        raise ValueError(kind2)
+                    for _ in range(12):
+                        await asyncio.sleep(0)
+                    snap("pre")
                 else:
                     raise ValueError(kind)
             if end > loop.ticks:
